@@ -148,6 +148,8 @@ _add("ParallelWrapper:US", "ParallelUtilityEstimationWrapper", {"n_jobs": 1}, ["
 for _k, _e in _E.items():
     if _e["cls"] in ("Quire", "TypiClust", "ValueOfInformationEER", "DiscriminativeAL", "ProbCover", "CostEmbeddingAL"):
         _e["flags"]["rows"] = False
+    if _e["cls"] == "EpistemicUncertaintySampling":
+        _e["flags"]["binary"] = True  # documented: two-class problems only
     if _e["cls"] in ("MonteCarloEER", "ValueOfInformationEER"):
         # fit_clf=False with a caller-fitted classifier is refused by design (IndexClassifierWrapper cannot
         # emulate partial_fit on a classifier of unknown provenance)
@@ -171,7 +173,7 @@ def build_strategy(entry_key, seed, overrides=None):
     # deep-ish copy of dict params so that caller-owned dicts are fresh per object
     kw = {k: (np.array(v["nd"], dtype=float) if isinstance(v, dict) and set(v) == {"nd"} else (dict(v) if isinstance(v, dict) else (list(v) if isinstance(v, list) else v))) for k, v in kw.items()}
     if overrides:
-        kw.update(overrides)
+        kw.update({k: v for k, v in overrides.items() if k != "classes" or "classes" in kw})
     kw["random_state"] = seed
     return strategy_class(e["cls"])(**kw)
 
@@ -194,13 +196,30 @@ def model_arg(entry_key):
     return None, None
 
 
-def make_pool(rng, n, d, task, kind):
+def make_pool(rng, n, d, task, kind, n_classes=2):
     """Small data sets with the degeneracies the property lists."""
+    X, y = _make_pool(rng, n, d, task, kind)
+    if task == "clf" and n_classes > 2:
+        # a third class for a slice of the pool (labels 0..n_classes-1)
+        nr = rng.np("third")
+        extra = nr.random_sample(n) < 0.3
+        y = y.copy()
+        y[extra] = nr.randint(2, n_classes, int(extra.sum()))
+    return X, y
+
+
+def _make_pool(rng, n, d, task, kind):
     nr = rng.np("pool")
     if kind == "blobs":
         c = nr.normal(0, 2.0, (2, d))
         lab = nr.randint(0, 2, n)
         X = c[lab] + nr.normal(0, 0.7, (n, d))
+    elif kind == "separated":
+        # two tight, far apart groups: models become certain (probabilities exactly 0/1, utilities exactly 0)
+        lab = nr.randint(0, 2, n)
+        X = (lab[:, None] * 60.0) + nr.normal(0, 0.3, (n, d))
+        mid = nr.random_sample(n) < 0.2  # a few ambiguous points half-way: some utilities stay positive
+        X[mid] = 30.0 + nr.normal(0, 0.3, (int(mid.sum()), d))
     elif kind == "duplicates":
         base = nr.normal(0, 1.5, (max(2, n // 3), d))
         X = base[nr.randint(0, len(base), n)]
